@@ -21,6 +21,8 @@ META = {
               '(dual[0], dual[1], dual[2], in stored order) to try_extend, which — for the first rotation (i,j,k) that applies — either replaces the cycle edge t_k -> t_j by t_k -> t_i -> t_j '
               '(t_i not on the cycle, len+1) or contracts t_k -> t_j -> t_i into t_k -> t_i, detaching t_j and keeping `start` on the cycle (len-1), and otherwise changes nothing; the clip '
               'routine passes exactly the removed vertices, walks len+1 items of the cycle from `start`, and the walk follows the successor pointers',
+        'R9': 'in 1D/2D the cell\'s face list contains exactly the faces inside the active subspace (C08.R1): every mechanism that decides whether an axis is active — entry-point '
+              'normalisation, generator projection, periodic tripling, image ranges, the validity test of a face normal — agrees with "axis index < dimensionality"',
         'R8': 'candidates reach the builder in order of true distance (C17.R1-R3, R5): min-first heap, leaf key == |q + s - g|^2 (squared, like the envelope bound it is compared with), '
               'envelope bound == squared distance to the clamped point, plain search == squared Euclid — otherwise the termination test (R3) ends the loop before a nearer generator was clipped',
         'R6': 'built-in integrals: volume = sum signed_volume_tet(v0,v1,v2,apex); centroid = sum vol*(v0+v1+v2+apex) * (1/4)/sum vol with the cell generator as apex',
@@ -41,7 +43,7 @@ def run(ctx):
     for cfg in ctx.configs_used:
         F = ctx.facts(cfg)
         sfx = '' if cfg == 'default' else '@' + cfg
-        for fn in (r1, r2, r3, r4, r5, r6, r7, r8):
+        for fn in (r1, r2, r3, r4, r5, r6, r7, r8, r9):
             rule = 'C01.' + fn.__name__.upper()
             ctx.guarded(rule, 'evaluate' + sfx, lambda: fn(ctx, F, rule, sfx))
 
@@ -294,6 +296,11 @@ def r5(ctx, F, rule, sfx):
     ok_idx = len(push) == 1 and newidx.startswith('len(') and 'clipping_planes' in newidx
     c16.initial_vertices(ctx, F, rule, sfx)
     ctx.check(rule, 'clip-site-new-plane-index' + sfx, ok_idx, 'third dual index = %s; new plane pushed %d time(s)' % (newidx[:80], len(push)), 'len(planes) before pushing the new plane', where(cb, e.line), key_extra='new-index')
+
+
+def r9(ctx, F, rule, sfx):
+    from . import c08
+    c08.r1(ctx, F, rule, sfx)
 
 
 def r8(ctx, F, rule, sfx):
